@@ -170,6 +170,82 @@ Proof.
   eapply mstep_nodup; eauto.
 Qed.
 
+(* ---- QueryMsg::Epoch { id } agrees with history: every epoch ever created is reported, at any later point of any
+   schedule, with exactly the id and start time it was created with ---- *)
+Lemma mcreate_start_fits d now s bad s' msgs :
+  mcreate d now s bad = Ok (s', msgs) -> 0 <= e_start (m_epoch s') < P64.
+Proof.
+  unfold mcreate. intro H.
+  ib H el H1. ib H u2 H2. ib H id' H3. ib H st' H4. apply padd_ok in H4 as [-> F].
+  ib H u5 H5. inversion H; subst; cbn. exact F.
+Qed.
+
+Lemma mstep_offset d now s o s' msgs :
+  mstep d now s o = Ok (s', msgs) ->
+  0 <= e_start (m_epoch s) < P64 ->
+  0 <= e_start (m_epoch s') < P64 /\ ((e_id (m_epoch s') = e_id (m_epoch s) /\ e_start (m_epoch s') = e_start (m_epoch s)) \/
+   (e_id (m_epoch s') = e_id (m_epoch s) + 1 /\ e_start (m_epoch s') = e_start (m_epoch s) + d)).
+Proof.
+  intros E F. destruct o as [bad|a x|a x].
+  - cbn [mstep] in E. pose proof (mcreate_start_fits _ _ _ _ _ _ E) as F'.
+    apply mcreate_ok in E as (A & B & _). split; auto.
+  - apply mstep_hooks_only in E as [-> _]. split; auto.
+  - apply mstep_hooks_only in E as [-> _]. split; auto.
+Qed.
+
+Lemma mrun_offset d h : forall s, 0 <= e_start (m_epoch s) < P64 ->
+  exists n, 0 <= n /\ e_id (m_epoch (mrun d s h)) = e_id (m_epoch s) + n /\ e_start (m_epoch (mrun d s h)) = e_start (m_epoch s) + n * d /\ 0 <= e_start (m_epoch (mrun d s h)) < P64.
+Proof.
+  unfold mrun. induction h as [|[now o] r IH]; intros s F; cbn [fold_left].
+  - exists 0. repeat split; lia.
+  - assert (Hs : mhstep d s (now, o) = match mstep d now s o with Ok (s', _) => s' | _ => s end) by reflexivity.
+    rewrite Hs; clear Hs.
+    destruct (mstep d now s o) as [[s' msgs]| |] eqn:E; try (apply IH; exact F).
+    destruct (mstep_offset _ _ _ _ _ _ E F) as [F' [[A B]|[A B]]];
+      destruct (IH s' F') as (n & N & I & S & FF).
+    + exists n. rewrite I, S, A, B. repeat split; auto; lia.
+    + exists (n + 1). rewrite I, S, A, B. repeat split; auto; lia.
+Qed.
+
+Lemma mquery_back d s e n :
+  0 <= d -> 0 <= n -> 0 <= e_start e ->
+  e_id (m_epoch s) = e_id e + n -> e_start (m_epoch s) = e_start e + n * d ->
+  0 <= e_start (m_epoch s) < P64 ->
+  (n = 0 -> m_epoch s = e) ->
+  mquery d s (e_id e) = Ok e.
+Proof.
+  intros D N S0 I S F Z0. unfold mquery.
+  destruct (e_id (m_epoch s) =? e_id e) eqn:Q.
+  - apply Z.eqb_eq in Q. rewrite Z0; auto. lia.
+  - apply Z.eqb_neq in Q.
+    assert (Z.max 0 (e_id (m_epoch s) - e_id e) = n) as -> by lia.
+    unfold pmul. assert (fits P64 (d * n) = true) as ->.
+    { apply fits_true. nia. }
+    cbn [bind]. unfold psub. assert ((d * n <=? e_start (m_epoch s)) = true) as -> by (apply Z.leb_le; nia).
+    cbn [bind]. f_equal. destruct e as [i st]. cbn in *. f_equal. nia.
+Qed.
+
+Theorem manager_query_history d h : forall s0 k now e msgs,
+  0 <= d -> 0 <= e_start (m_epoch s0) < P64 ->
+  nth_error (mcreated d s0 h) k = Some (now, e, msgs) ->
+  mquery d (mrun d s0 h) (e_id e) = Ok e.
+Proof.
+  induction h as [|[now0 o] r IH]; intros s0 k now e msgs D F H; cbn [mcreated] in H.
+  - destruct k; discriminate.
+  - unfold mrun. cbn [fold_left].
+    assert (Hs : mhstep d s0 (now0, o) = match mstep d now0 s0 o with Ok (s', _) => s' | _ => s0 end) by reflexivity.
+    rewrite Hs; clear Hs. fold (mrun d).
+    destruct (mstep d now0 s0 o) as [[s' ms]| |] eqn:E; try (eapply IH; eauto; fail).
+    destruct (mstep_offset _ _ _ _ _ _ E F) as [F' _].
+    destruct o as [bad|a x|a x]; try (eapply IH; eauto; fail).
+    destruct k as [|k]; [|cbn [nth_error] in H; eapply IH; eauto].
+    cbn [nth_error] in H. inversion H; subst; clear H.
+    destruct (mrun_offset d r s' F') as (n & N & I & S & FF).
+    eapply mquery_back with (n := n); eauto; try lia.
+    intro Z0. subst n.
+    fold (mrun d s' r). destruct (m_epoch (mrun d s' r)) as [i st], (m_epoch s') as [i' st']. cbn in *. f_equal; lia.
+Qed.
+
 (* ================= fee distributor clock ================= *)
 Section Distributor.
 Variables d g : Z.    (* epoch_config.duration, epoch_config.genesis_epoch *)
